@@ -172,7 +172,7 @@ def execute(case):
                     tg.cancel_scope.cancel()
 
     try:
-        vclock.run(main, backend=backend, seed=seed, shuffle=case.get("shuffle", False))
+        vclock.run(main, backend=backend, seed=seed, shuffle=case.get("shuffle", False), watchdog=True)
     except BaseException as e:  # noqa: BLE001 - the driver never dies: the trace is still validated
         events.append({"ev": "crash", "what": repr(e)[:200]})
     return {"id": case["id"], "events": events}
